@@ -60,3 +60,39 @@ fn reporter_contract() {
     drop(reporter);
     assert!(reader.snapshot().is_none() && !reader.is_active(), "OBL reader::inactive_after_reporter_dropped");
 }
+
+// ---- one interfering increment: the read-and-reset must be a single atomic step ----------------------------------
+// Kani has no threads. To check that snapshot_value does not lose a count that lands between its read and its reset,
+// `AtomicU64::load` is stubbed by a version that, once, lets "another thread" add a symbolic amount right after the value
+// was read (the only observable interleaving point of a load/CAS loop). Contract: nothing counted is lost --
+// value returned + value left in the counter == everything counted. BOUNDED: one interference, one retry.
+static mut INJECTED: u64 = 0;
+static mut INJECT_BUDGET: u8 = 1;
+fn load_with_interference(a: &AtomicU64, _order: Ordering) -> u64 {
+    let v = a.fetch_add(0, Ordering::SeqCst);
+    unsafe {
+        if INJECT_BUDGET > 0 && kani::any() {
+            INJECT_BUDGET -= 1;
+            let d: u64 = kani::any();
+            kani::assume(d > 0 && d < 1000);
+            a.fetch_add(d, Ordering::SeqCst);
+            INJECTED = d;
+        }
+    }
+    v
+}
+
+#[kani::proof]
+#[kani::unwind(4)]
+#[kani::stub(std::sync::atomic::Atomic::<u64>::load, load_with_interference)]
+fn snapshot_value_under_interference() {
+    let a: u64 = kani::any();
+    kani::assume(a < 1_000_000);
+    let n = AtomicU64::new(a);
+    let r = snapshot_value(&n);
+    let left = n.fetch_add(0, Ordering::SeqCst);
+    let injected = unsafe { INJECTED };
+    kani::cover!(injected > 0, "COV interference_happened");
+    kani::cover!(injected == 0, "COV no_interference");
+    assert!(r + left == a + injected, "OBL snapshot_value::loses_no_count_under_a_concurrent_increment");
+}
